@@ -126,7 +126,7 @@ package dispatch
 //@   ensures [monotone] forall f model.Fingerprint :: old(f in ag.alerts.alerts) ==> f in ag.alerts.alerts && ag.alerts.alerts[f].UpdatedAt >= old(ag.alerts.alerts[f].UpdatedAt)
 // C14: the comparison with the stored version and the store are ONE critical section of the group's store - the
 // alert goes in through SetIfNotOlder exactly once and never through a separate look-up followed by Set
-//@   ensures [one-atomic-compare-and-store] count("SetIfNotOlder") == 1 && !called("Alerts).Set") && !called("Alerts).Get")
+//@   ensures [one-atomic-compare-and-store] count("SetIfNotOlder") == 1 && !called("Alerts).Set$") && !called("Alerts).Get$")
 //@   ensures [destroyed-group-refuses] old(ag.alerts.destroyed) ==> !result
 //@   ensures [refused-only-if-destroyed] !result ==> old(ag.alerts.destroyed) && dom(ag.alerts.alerts) == old(dom(ag.alerts.alerts)) && vals(ag.alerts.alerts) == old(vals(ag.alerts.alerts))
 //@   ensures [inserted] result && ag.alerts.perAlertLimit <= 0 && !old(ag.alerts.destroyed) ==> fpA(alert) in ag.alerts.alerts && ag.alerts.alerts[fpA(alert)].UpdatedAt >= alert.UpdatedAt
